@@ -12,6 +12,8 @@ import (
 // {ADD, REMOVE, unknown}, peer in {member 1, self 0, outsider 5};
 // roundReceived a symbolic int.
 func VerifHarness_C10_O1() {
+	// shape: the validators' keys are spelled in lower-case hex everywhere
+	verifLowerCaseKeys = verifChoice("keysWrittenInLowerCase", 2) == 1
 	vc := verifNewCore(3, 0)
 	c := vc.c
 	rr := verifNondetInt("roundReceived")
